@@ -277,16 +277,10 @@ func (v *Verifier) VerifyFunc(key string, c *Contract, class map[string]string) 
 			e.addTree(st, od, pv.L[0], e.freshTree(st, od, p.Name()))
 		}
 	}
-	for _, ow := range c.Extra["ownsfield"] {
-		// opt ownsfield <param>.<field>: the structure below that field of a (non-owned) struct parameter
-		f := strings.SplitN(ow, ".", 2)
-		if len(f) == 2 {
-			if pv, ok := e.params[f[0]]; ok {
-				fv := e.specField(pv, f[1], se)
-				if od := e.isOwnedPtr(fv.T); od != nil {
-					e.addTree(st, od, fv.L[0], e.freshTree(st, od, f[1]))
-				}
-			}
+	for _, ov := range e.ownedExprs(c.Owns, se) {
+		// owned structures reachable through fields (owns n.root)
+		if od := e.isOwnedPtr(ov.T); od != nil && st.chunk(ov.L[0]) == nil {
+			e.addTree(st, od, ov.L[0], e.freshTree(st, od, "owned"))
 		}
 	}
 	e.assumeTheory(st, c.Pkg, se)
@@ -478,18 +472,23 @@ func (v *Verifier) VerifyLemma(ax *Axiom) (run *FuncRun) {
 	st.next = e.next0
 	fr := &Frame{regs: map[ssa.Value]Val{}, names: map[string]NameBinding{}}
 	vars := map[string]Val{}
+	// lemmas may quantify over an abstract element type T
+	tp := types.NewTypeParam(types.NewTypeName(0, nil, "T", nil), types.NewInterfaceType(nil, nil))
+	se := &SpecEnv{e: e, st: st, old: st, fr: fr, vars: vars, pkg: ax.Pkg, tnames: map[string]types.Type{"T": tp}}
+	e.rootC = &Contract{Pkg: ax.Pkg}
+	e.rootFr = fr
+	e.lemmaTNames = se.tnames
 	for _, p := range ax.Params {
-		var t types.Type = intT
-		if p.Type == "bool" {
-			t = boolT
-		}
+		t := e.specType(p.Type, se)
 		pv := e.freshVal(p.Name, t)
 		vars[p.Name] = pv
-		e.inputs[p.Name] = pv.L[0]
+		if len(pv.L) == 1 {
+			e.inputs[p.Name] = pv.L[0]
+		}
 	}
-	se := &SpecEnv{e: e, st: st, old: st, fr: fr, vars: vars, pkg: ax.Pkg}
+	e.assumeTheory(st, ax.Pkg, se)
 	g := e.evalBool(ax.Body, se)
-	run.Obs = []*Obligation{{Name: run.Key + "/lemma", Kind: "lemma", Func: run.Key, Goal: g, Ctx: ctx, Inputs: e.inputs, Note: ax.Body.Src}}
+	run.Obs = []*Obligation{{Name: run.Key + "/lemma", Kind: "lemma", Func: run.Key, Assume: st.pc, Goal: g, Ctx: ctx, Inputs: e.inputs, Note: ax.Body.Src}}
 	run.Paths = 1
 	return
 }
